@@ -43,6 +43,9 @@ def coq_parse(s):
             raise ValueError("unexpected end")
         i[0] += 1
         if isinstance(t, tuple) and t[0] == "str":
+            t2 = peek()
+            if isinstance(t2, tuple) and t2[0] == "atom" and t2[1].startswith("%"):
+                i[0] += 1
             return t
         if isinstance(t, tuple):
             return atom_val(t[1])
